@@ -154,7 +154,17 @@ fn path_case(ctx: &mut Ctx, rng: &mut Rng, i: u64, only_empty: bool) {
         ..Default::default()
     };
     let old = std::env::var_os("PATH");
-    std::env::set_var("PATH", &path_text);
+    // PATH is a byte string: in some cases an extra (missing) entry holds bytes that are not valid UTF-8
+    let path_os: OsString = if rng.chance(250) {
+        use std::os::unix::ffi::OsStringExt;
+        let mut b = b"/nonexistent-\xff\xfe/dir:".to_vec();
+        b.extend_from_slice(path_text.as_bytes());
+        ctx.count("path_values_with_non_utf8_bytes", 1);
+        OsString::from_vec(b)
+    } else {
+        OsString::from(&path_text)
+    };
+    std::env::set_var("PATH", &path_os);
     let m = run::monitored(|| Popen::create(&argv, config));
     match old {
         Some(p) => std::env::set_var("PATH", p),
